@@ -14,12 +14,13 @@ Definition parse_tokens (toks : list token) (se : scan_end) (keep : bool) : list
               p_anchors := []; p_anchor_id := 1%N; p_tags := []; p_keep_tags := keep |} in
   parse_all (4 * length toks + 40) p se [].
 
-(* oracle for C02: (is a sentence prefix, is a complete sentence) *)
-Definition grammar_verdict (evs : list event) : bool * bool :=
+(* oracle for C02: (is a sentence prefix, is a complete sentence, anchor ids are 1,2,3,.. and aliases refer back) *)
+Definition grammar_verdict (evs : list event) : bool * bool * bool :=
+  let a := match arun 0 evs with Some _ => true | None => false end in
   match grun GInit evs with
-  | None => (false, false)
-  | Some GEnd => (true, true)
-  | Some _ => (true, false)
+  | None => (false, false, a)
+  | Some GEnd => (true, true, a)
+  | Some _ => (true, false, a)
   end.
 
 (* oracle for C17: the specification of a peek/next history over the plain iteration results, given as a
